@@ -6,6 +6,8 @@
 package lockset
 
 import (
+	"fmt"
+	"os"
 	"go/token"
 	"go/types"
 	"sort"
@@ -336,8 +338,13 @@ func (a *Analysis) computeEntries(fns []*ssa.Function) {
 						constrained = true
 						continue
 					case *ssa.Defer:
-						// runs at exit of the caller: conservatively nothing held
-						acc = intersect(acc, Set{})
+						// runs at the exit of the caller, after the defers registered later and before
+						// those registered earlier (LIFO)
+						ce := a.entry[caller]
+						if ce == nil && !a.isRoot(caller) {
+							continue // caller still TOP
+						}
+						acc = intersect(acc, a.heldWhenDeferredRuns(caller, e.Site.(*ssa.Defer), ce))
 						constrained = true
 						continue
 					}
@@ -375,6 +382,84 @@ func (a *Analysis) computeEntries(fns []*ssa.Function) {
 			a.entry[f] = Set{}
 		}
 	}
+}
+
+// heldWhenDeferredRuns computes the mutexes certainly held when the call deferred at d runs: those held at every
+// return of the caller (before its defers run), minus every mutex that a defer which may have been registered after d
+// (it does not strictly dominate d) releases — such a defer runs before d's call. Deferred unlocks registered before d
+// on every path run after it and do not count. Panicking exits are not considered.
+func (a *Analysis) heldWhenDeferredRuns(caller *ssa.Function, d *ssa.Defer, callerEntry Set) Set {
+	var atRet Set
+	for _, b := range caller.Blocks {
+		for _, instr := range b.Instrs {
+			if _, ok := instr.(*ssa.Return); ok {
+				if _, reached := a.local[caller][instr]; !reached || b == caller.Recover {
+					continue // the recover block: a panicking exit
+				}
+				h := Set{}
+				for k := range callerEntry {
+					h[k] = true
+				}
+				for k := range a.local[caller][instr] {
+					h[k] = true
+				}
+				atRet = intersect(atRet, h)
+			}
+		}
+	}
+	if atRet == nil {
+		return Set{}
+	}
+	out := atRet.clone()
+	for _, b := range caller.Blocks {
+		for i, instr := range b.Instrs {
+			d2, ok := instr.(*ssa.Defer)
+			if !ok || d2 == d {
+				continue
+			}
+			earlier := false // d2 is registered before d on every path to d
+			if b == d.Block() {
+				for _, x := range b.Instrs[:i] {
+					if x == d {
+						earlier = false
+					}
+				}
+				// same block: earlier iff d2 precedes d
+				for _, x := range b.Instrs {
+					if x == d2 {
+						earlier = true
+						break
+					}
+					if x == d {
+						break
+					}
+				}
+			} else {
+				earlier = b.Dominates(d.Block())
+			}
+			if earlier {
+				continue
+			}
+			if op, ok := LockOp(d2); ok {
+				if !op.Acquire {
+					delete(out, key(op))
+				}
+				continue
+			}
+			if callee := ssax.StaticFn(d2); callee != nil && a.fns[callee] {
+				for k := range a.rel[callee] {
+					delete(out, k)
+				}
+			} else {
+				// unknown deferred code: assume it may release anything
+				if os.Getenv("UAVERIF_DEBUG") != "" {
+					fmt.Fprintf(os.Stderr, "lockset: unknown deferred code in %s: %s\n", caller, d2)
+				}
+				return Set{}
+			}
+		}
+	}
+	return out
 }
 
 // HeldAt returns the mutexes certainly held before instr executes.
